@@ -103,5 +103,56 @@ Proof. intros H Hok HD Hs. assert (Hne : qs <> []).
     - destruct (cf_run fuel D N); [inversion H; discriminate | discriminate].
     - apply (cf_run_ne _ _ _ _ H). }
   rewrite (cf_val_rat qs x Hne Hok). apply (req_eval K (cf_rat qs) (N, D) x (cf_coeffs_sound _ _ _ _ H) Hs HD). Qed.
+
+(* ---- continued_fraction_inverse_coeffs / as_continued_fraction_inverse --------------
+   the same scheme on the TRAILING terms:  Q = ET(N)/ET(D) = c / x^k  (k = ed - en >= 0,
+   en, ed the orders of the lowest non-zero terms), N2 = N - Q*D; when en > ed a 0
+   coefficient is emitted and N, D are swapped. *)
+Fixpoint lowidx (p : poly) : nat := match p with [] => O | a :: t => if feqb a 0 then S (lowidx t) else O end.
+Fixpoint lowcoef (p : poly) : K := match p with [] => 0 | a :: t => if feqb a 0 then lowcoef t else a end.
+Definition cfi_quot (N D : poly) : option (rat K * poly) :=
+  let k := (lowidx D - lowidx N)%nat in
+  let c := lowcoef N / lowcoef D in
+  if low_zero k D then Some (([c], pshift k [1]), pnorm (psub N (pscale c (skipn k D)))) else None.
+Lemma cfi_quot_ok (N D : poly) q N2 : cfi_quot N D = Some (q, N2) -> cf_step_ok N D q N2.
+Proof. unfold cfi_quot. destruct (low_zero (lowidx D - lowidx N) D) eqn:L; [|discriminate]. intros H. inversion H; subst. intros x.
+  cbn [fst snd]. rewrite peval_pnorm, peval_psub, peval_pscale, peval_pshift, (low_zero_shift _ _ x L). cbn [peval]. ring. Qed.
+Fixpoint cfi_run (fuel : nat) (N D : poly) : option (list (rat K)) :=
+  match fuel with
+  | O => None
+  | S f =>
+      if (lowidx D <? lowidx N)%nat then
+        match cfi_run f D N with Some qs => Some (([], [1]) :: qs) | None => None end
+      else match cfi_quot N D with
+           | None => None
+           | Some (q, N2) => if pzerob N2 then Some [q]
+                             else match cfi_run f D N2 with Some qs => Some (q :: qs) | None => None end
+           end
+  end.
+Lemma cfi_run_ne fuel (N D : poly) qs : cfi_run fuel N D = Some qs -> qs <> [].
+Proof. destruct fuel; cbn [cfi_run]; [discriminate|]. destruct (lowidx D <? lowidx N)%nat.
+  - destruct (cfi_run fuel D N); [intros H; inversion H; discriminate | discriminate].
+  - destruct (cfi_quot N D) as [[q N2]|]; [|discriminate].
+    destruct (pzerob N2); [intros H; inversion H; discriminate|].
+    destruct (cfi_run fuel D N2); [intros H; inversion H; discriminate | discriminate]. Qed.
+Theorem cfi_run_chain fuel (N D : poly) qs : cfi_run fuel N D = Some qs -> cf_chain N D qs.
+Proof. revert N D qs. induction fuel as [|f IH]; intros N D qs H; cbn [cfi_run] in H; [discriminate|].
+  destruct (lowidx D <? lowidx N)%nat.
+  - destruct (cfi_run f D N) as [qs'|] eqn:R; [|discriminate]. inversion H; subst.
+    apply (cf_more K N D ([], [1]) N qs'); [|apply (cfi_run_ne _ _ _ _ R) | apply (IH _ _ _ R)].
+    intros x. cbn [fst snd peval]. ring.
+  - destruct (cfi_quot N D) as [[q N2]|] eqn:Q; [|discriminate]. pose proof (cfi_quot_ok _ _ _ _ Q) as Hs.
+    destruct (pzerob N2) eqn:Z.
+    + inversion H; subst. apply cf_last. apply (cf_step_ok_ext N D q N2 []); [|exact Hs].
+      intros x. rewrite (pzerob_eval _ _ Z x). reflexivity.
+    + destruct (cfi_run f D N2) as [qs'|] eqn:R; [|discriminate]. inversion H; subst.
+      apply (cf_more K N D q N2 qs' Hs (cfi_run_ne _ _ _ _ R) (IH _ _ _ R)). Qed.
+Theorem cfi_sound fuel (N D : poly) qs : cfi_run fuel N D = Some qs -> req (cf_rat qs) (N, D).
+Proof. intros R. apply (cf_chain_sound K _ _ _ (cfi_run_chain _ _ _ _ R)). Qed.
+Theorem cfi_value fuel (N D : poly) qs x : cfi_run fuel N D = Some qs -> cf_ok qs x ->
+  peval D x <> 0 -> peval (snd (cf_rat qs)) x <> 0 -> cf_val qs x = peval N x / peval D x.
+Proof. intros H Hok HD Hs. rewrite (cf_val_rat qs x (cfi_run_ne _ _ _ _ H) Hok).
+  apply (req_eval K (cf_rat qs) (N, D) x (cfi_sound _ _ _ _ H) Hs HD). Qed.
 End CF.
+Arguments cfi_run {K}. Arguments cfi_quot {K}. Arguments lowidx {K}. Arguments lowcoef {K}.
 Arguments cf_run {K}. Arguments cf_coeffs {K}. Arguments cf_val {K}. Arguments cf_quot {K}. Arguments low_zero {K}.
